@@ -58,6 +58,10 @@ CLAIMED = {
    technique="bounded-exhaustive enumeration of irreversible configurations with a per-sample bound derived from the QCD parsed out of each stream and exact L1 synthesis gains from an independent Annex F 9/7 inverse",
    text="Sizes 1..16^2 x components x P {8,12,16} x signed x quality {1,10,50,80,90,100} x levels 0..6 x code-block {16,32,64} x 5 contents (rotated sub-product), every quality 1..100 at two sizes, larger sizes. bound(x,y) = sum_b delta_b G_b(x,y) + 2 (RGB via |ICT^-1| rows + 5); G_b computed by impulse responses of an independent float64 9/7 inverse that is validated for perfect reconstruction in every run. The bound is tight enough to expose a 3.3e-5 gain error in the library's inverse transform.",
    note="Allowance 2/5 fixed before the first run. Contents are a finite family. One known finding (int32 overflow at 16-bit, 6 levels, quality ~100)."),
+ "C06": dict(engine="E1 space via registry + block level + fixtures", design="§4 C06",
+   technique="bounded-exhaustive enumeration through the registered .201/.202 codecs (sizes x formats x block sizes x levels x contents), exhaustive HT block-coder round trip over small blocks, and the finite set of 14 third-party codestreams",
+   text="Codec level: 100+ sizes (all 1..8^2, 1..3 x 9..20 both ways, larger) x 5 formats x SPP {1,3} x 6 block shapes x NumLevels 0..6 (rotated sub-product) x {all images over {0,1,MAX} for <= 4 samples, 11 content families}, typed/generic/nil parameters. Block level: every block with <= 6 samples within 4x4 (and 1xn/nx1) x Kmax {2,5,9,17} x every coefficient block over {0,+-1,+-2,+-(2^(K-1)-1)} through NewHTEncoder/NewHTDecoder with the pipeline's coding-context protocol. Fixtures: all 14 OpenJPH/fo-dicom lossless codestreams decode to input.raw.",
+   note="HTJ2K costs ~1.5 ms per case, so quick runs 1/8 of the codec-level product (thorough 1/2). The codec declares BitsAllocated as precision, so every byte content is in its domain."),
 }
 NOT_APPLICABLE = {}
 
